@@ -9,6 +9,10 @@
 //                   passed (photon::now, moved only by script op A) = the timer wakes it: it leaves the queue and its
 //                   wait returns -1/ETIMEDOUT; then "lock" again
 //   VCond::notify_one / notify_all   point "notify1" / "notifyall": head of the queue / everybody
+//   flavor 2 on a participant asleep in "cvblk" (or spinning on a held mutex) DISMISSES it: the OS thread longjmps out
+//   of the channel call without touching the channel (no destructor runs: waiter counters, queues, mutex stay as they
+//   are) and ends; the model appends one such entry per thread still asleep when nobody can move, so every replay ends
+//   with all threads joined (an abandoned, parked thread per blocked participant would exhaust the pid space).
 // m_closed, m_senders_waiting, m_receivers_waiting are std::verif_atomic (every access a point); every op of a
 // script starts with a point "op" (the Timeout of the call is constructed in that step).
 // case:   U <bound> | <script p0> | <script p1> | ... | <e3 schedule (base-36 digits; e / n = 1: timer flavor)>
@@ -23,11 +27,18 @@
 #include <sstream>
 #include <algorithm>
 #include <cerrno>
+#include <csetjmp>
 #include <photon/common/timeout.h>
 #include <photon/common/utility.h>
 #include <photon/thread/thread.h>
 #include <photon/thread/thread11.h>
 #include <photon/common/lockfree_queue.h>
+
+static jmp_buf g_jb[64];
+static char g_dismissed[64];
+static void dismiss_if_asked() {
+    if (e3::in_participant() && e3::flavor() == 2) { int me = e3::me(); g_dismissed[me] = 1; longjmp(g_jb[me], 1); }
+}
 
 namespace photon {
 struct VMutex {
@@ -36,8 +47,9 @@ struct VMutex {
     int lock(Timeout = {}) {
         for (;;) {
             e3::point("lock");
-            if (owner < 0) { owner = e3::in_participant() ? e3::me() : 99; return 0; }
-            if (!e3::in_participant()) return -1;          // never: the main thread only touches a quiescent channel
+            if (!e3::in_participant()) { owner = 99; return 0; }    // the main thread (destructor) only touches a finished run
+            if (owner < 0) { owner = e3::me(); return 0; }
+            dismiss_if_asked();
         }
     }
     int try_lock() { e3::point("trylock"); if (owner < 0) { owner = e3::me(); return 0; } errno = EBUSY; return -1; }
@@ -54,6 +66,7 @@ struct VCond {
         for (;;) {
             e3::point("cvblk");
             if (st[me] != 1) break;
+            dismiss_if_asked();
             if (e3::flavor() == 1 && t.expiration() <= photon::now) {      // resume_threads: the deadline has passed
                 q.erase(std::remove(q.begin(), q.end(), me), q.end()); st[me] = 3;
             }
@@ -93,6 +106,25 @@ static std::string plist(const std::vector<int>& v) {
     std::string s; for (size_t i = 0; i < v.size(); i++) { if (i) s += ","; s += std::to_string(v[i]); } return s;
 }
 
+static void run_script(Chan* ch, int p, const std::string& script, std::vector<long>& res) {
+    int seq = 0;
+    std::istringstream is(script); std::string w;
+    while (is >> w) {
+        if (w[0] == 'A') { e3::point("tick"); photon::now = photon::now + 200; res.push_back(0); continue; }
+        e3::point("op");
+        switch (w[0]) {
+        case 'S': res.push_back(ch->send(1000 * p + seq++) ? 1 : 0); break;
+        case 'T': res.push_back(ch->send(1000 * p + seq++, photon::Timeout(strtoull(w.c_str() + 1, nullptr, 10))) ? 1 : 0); break;
+        case 's': res.push_back(ch->try_send(1000 * p + seq++) ? 1 : 0); break;
+        case 'R': { int x = -1; bool ok = ch->recv(x); res.push_back(ok ? x : -1); break; }
+        case 'V': { int x = -1; bool ok = ch->recv(x, photon::Timeout(strtoull(w.c_str() + 1, nullptr, 10))); res.push_back(ok ? x : -1); break; }
+        case 'r': { int x = -1; bool ok = ch->try_recv(x); res.push_back(ok ? x : -1); break; }
+        case 'C': ch->close(); res.push_back(0); break;
+        default: break;
+        }
+    }
+}
+
 static std::string run_once(int bound, const std::vector<std::string>& scripts, const std::string& sched) {
     e3::clear_names();
     photon::now = 0;                                        // the clock of Timeout, moved only by op A
@@ -102,23 +134,9 @@ static std::string run_once(int bound, const std::vector<std::string>& scripts, 
     e3::name(&ch->m_receivers_waiting, "rw");
     int n = (int)scripts.size();
     std::vector<std::vector<long>> res(n);
+    memset(g_dismissed, 0, sizeof g_dismissed);
     e3::Outcome o = e3::run(n, e3::parse_schedule(sched), bound, [&](int p) {
-        int seq = 0;
-        std::istringstream is(scripts[p]); std::string w;
-        while (is >> w) {
-            if (w[0] == 'A') { e3::point("tick"); photon::now = photon::now + 200; res[p].push_back(0); continue; }
-            e3::point("op");
-            switch (w[0]) {
-            case 'S': res[p].push_back(ch->send(1000 * p + seq++) ? 1 : 0); break;
-            case 'T': res[p].push_back(ch->send(1000 * p + seq++, photon::Timeout(strtoull(w.c_str() + 1, nullptr, 10))) ? 1 : 0); break;
-            case 's': res[p].push_back(ch->try_send(1000 * p + seq++) ? 1 : 0); break;
-            case 'R': { int x = -1; bool ok = ch->recv(x); res[p].push_back(ok ? x : -1); break; }
-            case 'V': { int x = -1; bool ok = ch->recv(x, photon::Timeout(strtoull(w.c_str() + 1, nullptr, 10))); res[p].push_back(ok ? x : -1); break; }
-            case 'r': { int x = -1; bool ok = ch->try_recv(x); res[p].push_back(ok ? x : -1); break; }
-            case 'C': ch->close(); res[p].push_back(0); break;
-            default: break;
-            }
-        }
+        if (setjmp(g_jb[p]) == 0) run_script(ch, p, scripts[p], res[p]);     // else: dismissed while blocked, the thread ends here
     });
     std::string out = "res=";
     for (int p = 0; p < n; p++) {
@@ -126,7 +144,7 @@ static std::string run_once(int bound, const std::vector<std::string>& scripts, 
         for (size_t i = 0; i < res[p].size(); i++) { if (i) out += ","; out += std::to_string(res[p][i]); }
     }
     std::vector<int> bl;
-    for (int p = 0; p < n; p++) if (!o.finished[p]) bl.push_back(p);
+    for (int p = 0; p < n; p++) if (!o.finished[p] || g_dismissed[p]) bl.push_back(p);
     out += " blocked=" + plist(bl);
     out += " slot=" + std::to_string(ch->m_handoff_ready ? (ch->m_handoff_ptr ? (long)*ch->m_handoff_ptr : -2L) : -1L);
     out += " closed=" + std::to_string((int)ch->m_closed.std::atomic<bool>::load());
